@@ -57,6 +57,9 @@ def value_candidates(lit):
     out = [eq, lo, hi, other] + EXTRA_OTHER.get(lit[0], [])
     if lit != eq:
         out.append(lit)
+        out.append(lit)
+    if lit[0] in ('str', 'uri') and ' '.join(lit[1].split()) != lit[1]:
+        out.append([lit[0], ' '.join(lit[1].split())])      # the same text with its white space collapsed is another value
     return out
 
 
@@ -204,7 +207,8 @@ def strategies(excl):
     from .. import gen
     tags = st.sampled_from(['a', 'b', 'c', 'note', 'android', 'order', 'nota', 'x1', 'dis', 'andy', 'oro', 'curVal'])
     rtags = st.sampled_from(['r', 'siteRef', 'notRef'])
-    strlit = st.one_of(st.sampled_from(['m', 'a b', 'q"t', 'back\\slash', 'tab\there', u'caf\xe9', '$x', '', 'line\nbreak']),
+    strlit = st.one_of(st.sampled_from(['m', 'a b', 'q"t', 'back\\slash', 'tab\there', u'caf\xe9', '$x', '', 'line\nbreak', 'AHU  1', u'a\xa0b',
+                                        ' lead', 'trail ', 'x   y', u'\u2003em', 'and or not', '(a)', 'a->b', '== 1']),
                        gen.text(4)).map(lambda s: ['str', s])
     urilit = st.sampled_from(['m', 'http://x/y?z=1', 'a`b', u'\xe9']).map(lambda s: ['uri', s])
     numlit = st.one_of(st.sampled_from([5.0, 0.0, -1.5, 1e6, 1e-3]), st.integers(-50, 50).map(float)).map(lambda v: ['num', v])
